@@ -2,7 +2,7 @@
 import json
 
 ALL_DATA = ('{"absent", "null", "empty", "hex", "esc", "num", "numstr", "float", "neg", "list0", "list1e", "list2e", '
-            '"list", "dict0", "nested", "call"}')
+            '"list", "dict0", "nested", "call", "patch"}')
 # descriptor spaces: (A) textual forms of the fields, (B) data payloads x presence of optional fields
 FORMS_Q = {"ValueOpts": '{"absent", "a_lz", "icx_up"}', "NidOpts": '{"absent", "1"}',
            "NonceOpts": '{"absent", "null", "a_up"}', "StepOpts": '{"1f4", "1f4_up"}', "TsOpts": '{"icx"}',
@@ -15,10 +15,10 @@ FORMS_T = {"ValueOpts": '{"absent", "null", "0_lz", "a_lzup", "icx_up"}', "NidOp
            "DTypeOpts": '{"absent"}', "MemoOpts": "{FALSE, TRUE}", "HashOpts": "{FALSE}"}
 DATA_Q = {"ValueOpts": '{"absent", "a"}', "NidOpts": '{"1"}', "NonceOpts": '{"absent", "1"}', "StepOpts": '{"1f4"}',
           "TsOpts": '{"icx"}', "FromOpts": '{"canon"}', "ToOpts": '{"canon"}', "DataOpts": ALL_DATA,
-          "DTypeOpts": '{"absent", "message", "call"}', "MemoOpts": "{FALSE}", "HashOpts": "{FALSE, TRUE}"}
+          "DTypeOpts": '{"absent", "message", "call", "patch"}', "MemoOpts": "{FALSE}", "HashOpts": "{FALSE, TRUE}"}
 DATA_T = {"ValueOpts": '{"absent", "a", "icx"}', "NidOpts": '{"absent", "1"}', "NonceOpts": '{"absent", "1"}',
           "StepOpts": '{"1f4"}', "TsOpts": '{"icx"}', "FromOpts": '{"canon"}', "ToOpts": '{"canon", "cx"}',
-          "DataOpts": ALL_DATA, "DTypeOpts": '{"absent", "message", "call"}', "MemoOpts": "{FALSE, TRUE}",
+          "DataOpts": ALL_DATA, "DTypeOpts": '{"absent", "message", "call", "patch"}', "MemoOpts": "{FALSE, TRUE}",
           "HashOpts": "{FALSE, TRUE}"}
 MIX_Q = {"ValueOpts": '{"absent", "null", "a_lz", "icx_up"}', "NidOpts": '{"absent", "a_lz"}',
          "NonceOpts": '{"absent", "null", "a_up"}', "StepOpts": '{"1f4_up", "icx_lz"}',
@@ -32,11 +32,42 @@ MIX = {"ValueOpts": '{"absent", "null", "0", "a", "a_lz", "a_up", "icx", "icx_up
        "DTypeOpts": '{"absent", "message", "call"}', "MemoOpts": "{FALSE, TRUE}", "HashOpts": "{FALSE, TRUE}"}
 
 
+# version-2 and genesis transactions (spec/data/TxReprRaw.tla)
+RAW_Q = {"ValueOpts": '{"icx_lz"}', "FeeOpts": '{"fee_up", "wrong"}', "TsOpts": '{"dec", "hex2"}',
+         "FromOpts": '{"canon", "upper"}'}
+RAW_T = {}
+
+
+def run_raw(ctx, only=None):
+    """v2 / genesis: JSON-only kinds; returns the number of cases replayed"""
+    if only is not None:
+        cases = [only]
+    else:
+        cs = dict(ctx.pick(RAW_Q, RAW_T))
+        r = ctx.model_check("data", "MC_TxReprRaw", "MC_TxReprRaw.cfg", constants=cs, coverage=True,
+                            timeout=ctx.pick(600, 1800), label="v2+genesis")
+        ctx.check_coverage(r, ["ParseJSON", "Bytes", "ParseStored", "ToJSON", "CompareWith"])
+        cases = ctx.behaviours("data", "Gen_TxReprRaw", "Gen_TxReprRaw.cfg", constants=cs, timeout=1800)
+    inp = ctx.path("in", "rawcases.ndjson")
+    with open(inp, "w") as fh:
+        for b in cases:
+            fh.write(json.dumps(b) + "\n")
+    ctx.absorb(ctx.go_replay("txrepr", "TestReplayRaw", inp, shards=ctx.pick(2, 4), timeout=1800))
+    for b in cases[:1] + cases[-1:]:
+        ctx.sample([dict(op=s["op"], rep=s["rep"], pre=s["pre"], what=s.get("what", ""), desc=s.get("desc", "")) for s in b])
+    return len(cases)
+
+
 def run(ctx):
     forms, data = ctx.pick(FORMS_Q, FORMS_T), ctx.pick(DATA_Q, DATA_T)
     if ctx.replay:
-        cases = [json.load(open(ctx.replay))["detail"]["behaviour"]]
+        det = json.load(open(ctx.replay))["detail"]
+        if det.get("kind") == "raw":
+            run_raw(ctx, det["behaviour"])
+            return finish(ctx)
+        cases = [det["behaviour"]]
     else:
+        run_raw(ctx)
         # 1. exhaustive: every descriptor of the two spaces x every conversion path of <= 4 calls from a submitted
         #    JSON document or from a peer's stored RLP form; id sensitivity for every single-field change
         for name, cs in (("forms", forms), ("data", data)):
@@ -63,14 +94,22 @@ def run(ctx):
     ctx.absorb(ctx.go_replay("txrepr", "TestReplay", inp, shards=ctx.pick(2, 4), timeout=1800))
     for b in cases[:1] + cases[len(cases) // 2:len(cases) // 2 + 1] + cases[-1:]:
         ctx.sample([dict(op=s["op"], rep=s["rep"], pre=s["pre"], what=s.get("what", ""), desc=s.get("other", "")) for s in b])
+    return finish(ctx)
+
+
+def finish(ctx):
     return ctx.finish(
         rule="a case = a transaction descriptor (presence and textual form of every field, data payload class, "
              "unknown/txHash fields) + either one maximal conversion path of 4 calls (ParseJSON / Bytes / ParseStored / "
              "ToJSON) from the submitted JSON or a peer's RLP form, or one id comparison with a single-field change; "
              "all descriptors of two product spaces by BFS + seeded random descriptors of the mixed space; distinct by "
              "(descriptor, path or changed field); non-trivial if it has >= 2 conversions or is a comparison; JSON key "
-             "order, whitespace and string escapes are seeded",
-        assumptions=["SHA3-256 and secp256k1 are trusted (ids are SHA3 of the predicted serialization text)",
+             "order, whitespace and string escapes are seeded; version-2 and genesis transactions (JSON-only kinds, "
+             "TxReprRaw.tla): descriptor = forms of value/fee/timestamp, nonce/method/tx_hash presence, address forms, "
+             "genesis with ICON or legacy serialization, each with all 4-call paths and all single-field comparisons",
+        assumptions=["double-sign-report transactions have no JSON parser (binary form only) and are not driven; patch "
+                     "transactions are version-3 transactions with dataType patch (data class \"patch\")",
+                     "SHA3-256 and secp256k1 are trusted (ids are SHA3 of the predicted serialization text)",
                      "well-formed version-3 transactions only; numeric forms: canonical, leading zero, upper-case "
                      "digits; address forms: canonical, upper-case digits, missing hx prefix; JSON null for optional fields",
                      "the value equivalences of the serialization format taken as given: numbers are truncated to "
